@@ -104,6 +104,7 @@ type runState struct {
 	mu      sync.Mutex
 	cur     int // index of the request being served (sequential mode)
 	byKey   map[string]int
+	byQuery map[string]int
 	records map[int][]Record
 	c       *Case
 }
@@ -118,6 +119,20 @@ func (rs *runState) lookup(rtype, rname, method string) int {
 		return -1
 	}
 	return rs.cur
+}
+
+// lookupQuery finds a request of a concurrent batch by the id carried in its query.
+func (rs *runState) lookupQuery(q string) (int, bool) {
+	rs.mu.Lock()
+	defer rs.mu.Unlock()
+	if rs.byQuery == nil {
+		return 0, false
+	}
+	i, ok := rs.byQuery[q]
+	if !ok {
+		return -1, true
+	}
+	return i, true
 }
 
 func (rs *runState) record(i int, r Record) {
@@ -159,6 +174,9 @@ func Build(c *Case, rs *runState) *res.Service {
 			var rtype, mth string
 			rtype, mth = r.Type(), r.Method()
 			i := rs.lookup(rtype, r.ResourceName(), mth)
+			if qi, ok := rs.lookupQuery(r.Query()); ok {
+				i = qi
+			}
 			rs.record(i, snapshot(m, r))
 			if i < 0 || i >= len(c.Reqs) {
 				r.NotFound()
@@ -267,13 +285,47 @@ func Run(c *Case) *Result {
 	return out
 }
 
-// RunConcurrent sends all requests at once (they must have pairwise different
-// (type, name, method) keys) and waits until all were processed.
+// TagQueries makes every request with a generated object payload carry a unique
+// query ("i=<n>") so that a concurrent batch may contain many requests for the same
+// resource; requests without such a payload get the default reply from the handler.
+func TagQueries(c *Case) {
+	for i := range c.Reqs {
+		rq := &c.Reqs[i]
+		if rq.Fields == nil {
+			continue
+		}
+		rq.Fields["query"] = json.RawMessage(fmt.Sprintf(`"i=%d"`, i))
+		keys := make([]string, 0, len(rq.Fields))
+		for k := range rq.Fields {
+			keys = append(keys, k)
+		}
+		sort.Strings(keys)
+		var sb strings.Builder
+		sb.WriteByte('{')
+		for j, k := range keys {
+			if j > 0 {
+				sb.WriteByte(',')
+			}
+			kb, _ := json.Marshal(k)
+			sb.Write(kb)
+			sb.WriteByte(':')
+			sb.Write(rq.Fields[k])
+		}
+		sb.WriteByte('}')
+		rq.Payload = sb.String()
+	}
+}
+
+// RunConcurrent sends all requests at once and waits until all were processed.
+// Requests are matched to their scripts by the unique query set by TagQueries.
 func RunConcurrent(c *Case) *Result {
-	rs := &runState{records: map[int][]Record{}, c: c, byKey: map[string]int{}}
+	rs := &runState{records: map[int][]Record{}, c: c, byKey: map[string]int{}, byQuery: map[string]int{}}
 	for i, rq := range c.Reqs {
-		t, n, m, _ := svc.SplitSubject(rq.Subject)
-		rs.byKey[t+" "+n+" "+m] = i
+		if q, ok := rq.Fields["query"]; ok {
+			var qs string
+			_ = json.Unmarshal(q, &qs)
+			rs.byQuery[qs] = i
+		}
 	}
 	s := Build(c, rs)
 	s.SetInChannelSize(len(c.Reqs) + 16)
